@@ -161,12 +161,15 @@ def run_pieces(wexe, db, pieces, timeout=180):
     final = res[-1]
     # the description of saved entities embeds the simulation counter ("... after simulation 3."): masked like the sim column
     dump = re.sub(r"after simulation \d+\.?", "after simulation #", final["dump"])
-    return {"rcs": rcs, "rows": rows, "dump": dump, "comps": final["comps"]}
+    # the component list right after the last piece (the observation after every piece has queried it before: a stale cache shows)
+    return {"rcs": rcs, "rows": rows, "dump": dump, "comps": final["comps"], "comps_last": res[marks[-1] + 1].get("comps")}
 
 
 def compare(a, b):
     if a["comps"] != b["comps"]:
         return "component lists differ: %s vs %s" % (a["comps"], b["comps"])
+    if a.get("comps_last") != b.get("comps_last"):
+        return "component lists right after the last piece differ: %s in one call vs %s when split" % (a.get("comps_last"), b.get("comps_last"))
     if set(a["rows"]) != set(b["rows"]):
         return "selected-output user numbers with rows differ: %s vs %s" % (sorted(a["rows"]), sorted(b["rows"]))
     for n in a["rows"]:
